@@ -241,6 +241,26 @@ let c03 s b =
              | _ -> Printf.bprintf b " | tv none")
       end
 
+(* ---- C11: interpreter interval evaluation: value or panic ---------------------- *)
+let c11 s b =
+  let arena = parse_arena s in
+  let nroots = next s in
+  let roots = times nroots (fun () -> next_nat s) in
+  let nvars = next s in
+  let bx = Array.of_list (times nvars (fun () -> let l = next_f32 s in let u = next_f32 s in (l, u))) in
+  let orc = libm_oracle in
+  match flatten arena roots with
+  | Err _ -> Printf.bprintf b "iv build"
+  | Ok (t, vars) ->
+    match reg_tape_new (nat_of_int 255) t.t_ops with
+    | Err _ -> Printf.bprintf b "iv build"
+    | Ok (rt, _) ->
+      let ins = List.map (fun v -> let (l, u) = bx.(int_of_nat v) in mk_interval orc l u) vars in
+      let (outs, _) = run_interval orc rt t.t_outputs ins in
+      Printf.bprintf b "iv";
+      if List.exists (fun o -> o = None) outs then Printf.bprintf b " panic"
+      else List.iter (function Some i -> Printf.bprintf b " %d %d" (ib i.lo) (ib i.hi) | None -> ()) outs
+
 (* ---- C15: bytecode ------------------------------------------------------------ *)
 let imm_bits (f : f32) : z = to_bits f
 let imm_of_bits (x : z) : f32 = of_bits x
@@ -308,6 +328,7 @@ let dispatch cmd s b =
   | "sval" -> cmd_sval s b
   | "c15" -> c15 s b
   | "c03" -> c03 s b
+  | "c11" -> c11 s b
   | "bcval" -> cmd_bcval s b
   | "c20" -> c20 s b
   | "c04" -> c04 s b
